@@ -21,4 +21,14 @@ LEVEL = {
     "of live non-empty records, occupied buckets) and from the contract state and compared with what the crate reported (C17.*); StatsOK is an "
     "invariant of MCStore_* (slot walk = live + free).", note=TRUST),
 }
+LEVEL["C08"] = dict(technique=T, text="TLC explores exhaustively the seeded configuration MCStore_w16k (four colliding keys whose records exactly fill "
+    "their slots, free slots below and file ends above the 16 KiB offset-width boundary): the design layer with relink cascades refines the ideal map in "
+    "every reachable state; witness properties that TLC must violate prove the branches value-moved / key-moved / predecessor-moved / two-predecessors-moved "
+    "are reachable. The same shapes (16 KiB and 2 MiB boundaries) are driven through the real crate with the decoded state after every update; conjuncts "
+    "C08.others_keep, C01.result/outcome, C05.content/count, and exact equality with the design-layer successor.", note=TRUST)
+LEVEL["C04"] = dict(technique=T, text="AbyScan transcribes the bitmap scan and the iterator literally; TLC checks for EVERY occupancy bitmap of tables with "
+    "1..16 buckets and every occupancy set of <= 3 (quick: 2-3) buckets of tables with 32..1024 buckets that iteration yields each occupied bucket's chain "
+    "exactly once, with exact size hints and fused end (the pinned scan is rejected by the same configuration: defect D2 is found by the model); IterOK holds "
+    "in every MCStore state. The real crate is driven into the occupancy patterns the scan distinguishes (bucket n-9, n-8, n-1, stride borders), through "
+    "inserts/overwrites/deletes and emptied-again maps, for 12+ table sizes and all iterator flavours; conjuncts C04.items/count/hints/fused against the contract.", note=TRUST)
 NA = {}
